@@ -7,7 +7,8 @@
            structures by xmi:id; Python overwrite rule) — an element becomes a proto-FS whose slots hold the raw
            attribute strings and the collected child elements; type lookup is TypeSystem.get_type(name, True), exact
            (32a3d1b; the short-name fallback of the old code is kept as get_type for the regression witness);
-           python-name remapping self/type; int() of begin/end/sofa for subtypes of AnnotationBase only;
+           python-name remapping self/type; int() of sofa for subtypes of AnnotationBase and of begin/end for subtypes
+           of Annotation only (645c868);
            children of array/list features wrapped at once; TypeNotFoundError swallowed when lenient, id remembered;
    pass 2  per object, per feature of Type.all_features, the branch chain of xmi.py:214-288 in its real order, with
            references resolved through the id-keyed dict (so forward references are fine); a reference is a pointer to
@@ -239,6 +240,10 @@ Definition mk_obj (ti : tinfo) (i : xid) (a : list (string * lval)) : res lobj :
   else Err EType.
 Section ParseFs.
 Variable lookup_type : schema -> tname -> res tinfo.     (* get_type_exact now, get_type before 32a3d1b *)
+(* integer_names (after 645c868): sofa for every subtype of AnnotationBase, begin and end for subtypes of Annotation only *)
+Definition int_names (ti : tinfo) : list string :=
+  ((if memb T_ANNOTATION_BASE (ti_anc ti) then ["sofa"] else []) ++
+   (if memb T_ANNOTATION (ti_anc ti) then ["begin"; "end"] else []))%list.
 Definition parse_fs_with (s : schema) (e : xelem) : res lobj :=
   do ti <- lookup_type s (reader_tname (x_ns e) (x_tag e)) ;;
   let kids := dict_of (map (fun kv => (pyname (fst kv), snd kv)) (group_kids (x_kids e) [])) in
@@ -246,7 +251,7 @@ Definition parse_fs_with (s : schema) (e : xelem) : res lobj :=
                    (map (fun kv => (fst kv, LKids (snd kv))) kids) in
   do i <- match alookup A_ID a0 with Some (LRaw a) => int_attr a | Some _ => Err EType | None => Err EKey end ;;
   let a1 := adel A_ID a0 in
-  do a2 <- (if memb T_ANNOTATION_BASE (ti_anc ti) then intify ["begin"; "end"; "sofa"] a1 else Ok a1) ;;
+  do a2 <- intify (int_names ti) a1 ;;
   do a3 <- (if is_prim_array_name (reader_tname (x_ns e) (x_tag e)) then Ok a2 else wrap_kids (ti_feats ti) kids a2) ;;
   mk_obj ti i a3.
 
@@ -599,9 +604,10 @@ Definition ti_okb (s : schema) (ti : tinfo) : bool :=
   && forallb (fun fd => String.eqb (fd_name fd) (pyname (fd_xname fd)) && reserved_free (fd_xname fd)
                         && negb (String.eqb (fd_xname fd) A_ID)) (ti_feats ti)
   && (negb (memb T_ANNOTATION_BASE anc) ||
-      forallb (fun fd => if String.eqb (fd_name fd) "sofa" then fkind_eqb (fkind_of s fd) FRef
-                         else if String.eqb (fd_name fd) "begin" || String.eqb (fd_name fd) "end"
-                              then fkind_eqb (fkind_of s fd) (FPrim PInt) else true) (ti_feats ti))
+      forallb (fun fd => negb (String.eqb (fd_name fd) "sofa") || fkind_eqb (fkind_of s fd) FRef) (ti_feats ti))
+  && (negb (memb T_ANNOTATION anc) ||
+      forallb (fun fd => negb (String.eqb (fd_name fd) "begin" || String.eqb (fd_name fd) "end")
+                         || fkind_eqb (fkind_of s fd) (FPrim PInt)) (ti_feats ti))
   && (negb (memb T_ANNOTATION anc) || memb T_ANNOTATION_BASE anc)
   && Bool.eqb (memb T_STRING_ARRAY anc) (String.eqb (ti_name ti) T_STRING_ARRAY)
   && (negb (is_array_name (ti_name ti)) ||
@@ -633,3 +639,30 @@ Definition dropped_ids_okb (s : schema) (d : xdoc) : bool :=
                     | Some a => String.eqb a "" || match s2z a with Some _ => true | None => false end
                     | None => true
                     end) (filter (unknown s) d).
+
+(* ---- C05: the remaining boolean premises of load_xmi_is_denotation ---- *)
+(* the element's namespace and tag name its type as the UIMA rule says, and only cas:NULL is of the type uima.cas.NULL *)
+Definition names_okb (d : xdoc) : bool :=
+  forallb (fun e => negb (is_fs e) ||
+     (opt_eqb String.eqb (type_of_elem (x_ns e) (x_tag e)) (Some (reader_tname (x_ns e) (x_tag e)))
+      && negb (String.eqb (reader_tname (x_ns e) (x_tag e)) T_NULL))) d.
+(* only annotations have a feature called sofa (Cas.add overwrites any attribute of that name) *)
+Definition sofa_feat_okb (s : schema) : bool :=
+  forallb (fun ti => negb (has_feat ti "sofa") || memb T_ANNOTATION_BASE (ti_anc ti)) s.
+Definition sofa_name (e : xelem) : string := match xattr e "sofaID" with Some a => a | None => "" end.
+(* view names are distinct and the document has the _InitialView sofa *)
+Definition sofas_okb (d : xdoc) : bool :=
+  nodup_sb (map sofa_name (filter is_sofa d)) && memb INITIAL (map sofa_name (filter is_sofa d)).
+(* an annotation is a member of the view of its own sofa only *)
+Definition member_okb (s : schema) (d : xdoc) (so m : xid) : bool :=
+  forallb (fun e => negb (is_other e) || negb (match x_id e with Ok i => Z.eqb i m | _ => false end) ||
+     match sch_find s (reader_tname (x_ns e) (x_tag e)) with
+     | Some ti => negb (has_feat ti "sofa") ||
+                  match xattr e "sofa" with Some a => match s2z a with Some z => Z.eqb z so | None => false end | None => false end
+     | None => false
+     end) d.
+Definition members_okb (s : schema) (d : xdoc) : bool :=
+  forallb (fun e => match dec_view e with Ok v => forallb (member_okb s d (fst v)) (snd v) | _ => false end) (filter is_view d).
+Definition reader_okb (parse_flt : string -> option flt) (s : schema) (d : xdoc) : bool :=
+  doc_ok_xmi parse_flt s d && schema_okb s && sofa_feat_okb s && names_okb d
+  && forallb (elem_okb s) (filter is_other d) && sofas_okb d && members_okb s d.
